@@ -38,7 +38,9 @@ func outpointEncoder(w io.Writer, val any, _ *[8]byte) error {
 
 // outpointDecoder is a TLV decoder for OutPoint.
 func outpointDecoder(r io.Reader, val any, _ *[8]byte, l uint64) error {
-	if v, ok := val.(*OutPoint); ok {
+	// The record is exactly 34 bytes long: any other length would leave
+	// the rest of the stream to be parsed from the wrong offset.
+	if v, ok := val.(*OutPoint); ok && l == 34 {
 		var o wire.OutPoint
 		if err := ReadElement(r, &o); err != nil {
 			return err
